@@ -49,6 +49,13 @@ None == [t |-> "none"]
 AsI64(r) == IF IsI64(r) THEN [t |-> "some", neg |-> r.cls = "neg", d |-> r.d] ELSE None
 AsU64(r) == IF IsU64(r) THEN [t |-> "some", neg |-> FALSE, d |-> r.d] ELSE None
 
+\* Number::visit calls exactly one visitor method, chosen by the representation (a non-negative integer is never
+\* handed to visit_i64, whatever the width it was built from)
+Visit(r) == CASE r.cls = "pos" -> [m |-> "u64", neg |-> FALSE, d |-> r.d]
+              [] r.cls = "neg" -> [m |-> "i64", neg |-> TRUE, d |-> r.d]
+              [] r.cls = "flt" -> [m |-> "f64"]
+              [] OTHER -> [m |-> "none"]
+
 \* comparison of the value built by k with the integer primitive p (a constructor of kind int)
 EqInt(k, p) ==
   LET r == Repr(k)
@@ -72,10 +79,13 @@ Coherent ==
   /\ (k.c = "int" /\ IsI64(r) /\ IsU64(r) => Leq(r.d, I64Max) /\ r.cls = "pos")
   /\ (k.c = "int" => (IsI64(r) <=> (IF k.neg /\ k.d # Zero THEN Leq(k.d, I64MaxPlus1) ELSE Leq(k.d, I64Max))))
   /\ (k.c = "int" => (IsU64(r) <=> ~(k.neg /\ k.d # Zero)))
+  /\ ((Visit(r).m = "u64") = IsU64(r)) /\ ((Visit(r).m = "f64") = IsF64(r))
+  /\ ((Visit(r).m = "i64") = (IsI64(r) /\ ~IsU64(r)))
+  /\ ((Visit(r).m = "none") = (Kind(k) # "number"))
 
 Emit ==
   PrintT(<<"REPLAY", ToJson([k |-> k, kind |-> Kind(k), isi64 |-> IsI64(Repr(k)), isu64 |-> IsU64(Repr(k)), isf64 |-> IsF64(Repr(k)),
-                            asi64 |-> AsI64(Repr(k)), asu64 |-> AsU64(Repr(k)),
+                            asi64 |-> AsI64(Repr(k)), asu64 |-> AsU64(Repr(k)), visit |-> Visit(Repr(k)),
                             eqint |-> {[p |-> p, eq |-> EqInt(k, p)] : p \in IntCtors},
                             eqbool |-> [t |-> EqBool(k, TRUE), f |-> EqBool(k, FALSE)],
                             eqstr |-> [a |-> EqStr(k, <<97>>), e |-> EqStr(k, <<>>)]])>>)
